@@ -785,7 +785,12 @@ func (r *run) membership(op Op, out *opOutcome, recs []*ls.Record) error {
 				// (a missing local file is refused by the validation, before
 				// anything about the list is touched)
 				if u2 != u && !(dl[0].Local && r.localState == "missing") {
-					tgt.unloaded = "failed-seturl"
+					// A list that was already unloaded for another reason
+					// (disabled) keeps that reason: the failed request
+					// restores what it found.
+					if tgt.unloaded == "" {
+						tgt.unloaded = "failed-seturl"
+					}
 					r.c.Probe("seturl_download_failed")
 				}
 				if len(dl) == 1 && r.classify(dl[0]) == expNew && (u2 == u || r.find(u2) == nil) {
